@@ -306,9 +306,18 @@ Fixpoint sx_Ns (l : list sx) : option (list N) :=
   | _ => None
   end.
 
+(* large bodies are written in cases as (n seed): n bytes, byte i = (seed + 7 i + i/256) mod 256 *)
+Fixpoint pattern (n : nat) (i seed : N) : bytes :=
+  match n with
+  | O => []
+  | S n' => ((seed + 7 * i + i / 256) mod 256) :: pattern n' (i + 1) seed
+  end.
+
 Definition sx_tag (x : sx) : option tag :=
   match x with
   | SL [SZ ty; SZ ts; SB b] => Some (mk_tag (Z.to_N ty) (Z.to_N ts) b)
+  | SL [SZ ty; SZ ts; SL [SZ n; SZ seed]] =>
+      Some (mk_tag (Z.to_N ty) (Z.to_N ts) (pattern (Z.to_nat n) 0 (Z.to_N seed)))
   | _ => None
   end.
 Fixpoint sx_tags (l : list sx) : option (list tag) :=
